@@ -23,26 +23,26 @@ type Directive struct {
 }
 
 type logEntry struct {
-	choice int        // index chosen
-	rest   []int      // alternatives still to explore
-	vals   []*big.Int // concretisation: the feasible values
-	level  int        // solver level before this decision's push
-	pushed bool
-	free   bool // unconditional fork (no condition to assert)
+	choice  int        // index chosen
+	rest    []int      // alternatives still to explore
+	vals    []*big.Int // concretisation: the feasible values
+	level   int        // solver level before this decision's push
+	pushed  bool
+	free    bool // unconditional fork (no condition to assert)
 	pending bool // flipped entry whose condition must be (re)asserted on replay
 }
 
 type Violation struct {
-	Harness string            `json:"harness"`
-	Label   string            `json:"label"`
-	Kind    string            `json:"kind"` // assert | panic
-	KF      string            `json:"known_finding,omitempty"`
-	Message string            `json:"message"`
-	Where   string            `json:"where"`
-	Stack   []string          `json:"stack,omitempty"`
-	Model   map[string]string `json:"model"`
-	Order   []string          `json:"order"`
-	Replayed string           `json:"replayed,omitempty"`
+	Harness  string            `json:"harness"`
+	Label    string            `json:"label"`
+	Kind     string            `json:"kind"` // assert | panic
+	KF       string            `json:"known_finding,omitempty"`
+	Message  string            `json:"message"`
+	Where    string            `json:"where"`
+	Stack    []string          `json:"stack,omitempty"`
+	Model    map[string]string `json:"model"`
+	Order    []string          `json:"order"`
+	Replayed string            `json:"replayed,omitempty"`
 }
 
 type pcEntry struct {
@@ -64,83 +64,83 @@ type Engine struct {
 	consts  map[*ssa.Const]Value
 	side    map[*Value]Value
 
-	Directives map[string]Directive
+	Directives  map[string]Directive
 	runtimeErrT types.Type
 
-	trail   []trailEntry
-	trailOn bool
-	lenient int
-	depth   int
-	steps   int64
+	trail     []trailEntry
+	trailOn   bool
+	lenient   int
+	depth     int
+	steps     int64
 	StepLimit int64
-	chanSeq int
+	chanSeq   int
 
-	spec    int
-	NoMerge bool
-	curFrame *frame
-	models  []*cachedModel
+	spec         int
+	NoMerge      bool
+	curFrame     *frame
+	models       []*cachedModel
 	NoModelCache bool
-	ModelHits int
-	Fallbacks int
-	dumpSeq int
-	chooseTrace []string
-	Completed int
+	ModelHits    int
+	Fallbacks    int
+	dumpSeq      int
+	chooseTrace  []string
+	Completed    int
 
 	// exploration
-	log     []logEntry
-	pos     int
-	pc      []pcEntry
-	counters map[string]int
-	inputs  []*Term
+	log        []logEntry
+	pos        int
+	pc         []pcEntry
+	counters   map[string]int
+	inputs     []*Term
 	inputNames []string
-	ufApps  []*Term
-	injApps map[string][]injApp
+	ufApps     []*Term
+	injApps    map[string][]injApp
 
 	// concrete replay
-	Concrete  bool
-	ModelIn   map[string]*big.Int
+	Concrete bool
+	ModelIn  map[string]*big.Int
 
 	// configuration
-	Tier        string
-	FeasTO      int
-	OblTO       int
-	PermuteMaps bool
-	PermuteMax  int
-	ConcCap     int
-	MaxPaths    int
+	Tier                  string
+	FeasTO                int
+	OblTO                 int
+	PermuteMaps           bool
+	PermuteMax            int
+	ConcCap               int
+	MaxPaths              int
 	MaxViolationsPerLabel int
-	Verbose     bool
-	Harness     string
-	KnownOpen   map[string]bool
-	Deadline    time.Time
+	Verbose               bool
+	Harness               string
+	KnownOpen             map[string]bool
+	Deadline              time.Time
 
 	// results
-	FnEntered   map[string]int
-	Paths       int
-	DeadPaths   int
-	Obligations int
-	Discharged  int
-	Trivial     int
-	Inconclusive []string
-	Violations  []*Violation
-	KnownHits   map[string]*Violation
-	ReachHit    map[string]int
-	Bounds      map[string]int64
-	Assumptions []string
-	Observed    []string
-	Samples     []string
-	WitnessInputs map[string]string
-	InitDiag    []string
-	MaxAlloc    int64
-	allocLog    []int64
-	Forks       int
-	Merges      int
+	FnEntered      map[string]int
+	Paths          int
+	DeadPaths      int
+	Obligations    int
+	Discharged     int
+	Trivial        int
+	Inconclusive   []string
+	Violations     []*Violation
+	KnownHits      map[string]*Violation
+	ReachHit       map[string]int
+	Bounds         map[string]int64
+	Assumptions    []string
+	Observed       []string
+	Samples        []string
+	WitnessInputs  map[string]string
+	InitDiag       []string
+	MaxAlloc       int64
+	allocLog       []int64
+	Forks          int
+	Merges         int
 	ImplicitChecks int
-	labelCount  map[string]int
-	CrossChecked int
-	CrossDisagree []string
-	CrossSolvers []string
-	curMaxInput  int
+	labelCount     map[string]int
+	CrossChecked   int
+	CrossDisagree  []string
+	CrossSolvers   []string
+	curMaxInput    int
 }
 
 type injApp struct {
